@@ -251,9 +251,70 @@ def expected_collisions(row):
     return bad
 
 
+def argument_forms(row):
+    """injected / expected spelt in their other accepted forms (a bare string, a tuple, a mapping), injected and expected
+    in one call, update_wrapper called directly (positionally and with func=): always the same own signature."""
+    from boltons import funcutils
+    sig, mode = row["sig"], row["mode"]
+    if mode not in ("inject", "expect", "expect_default", "plain"):
+        return []
+    want = [[NAME[p[0]], p[1], p[2]] for p in row["wparams"]]
+    bad = []
+
+    def wrapper(*a, **kw):
+        return None
+
+    def own(w):
+        return [[n, k, d] for n, k, d, _ in params_of(w)]
+    trials = []
+    if mode == "inject":
+        inj = NAME[row["arg"]]
+        trials = [("injected=str", lambda f: funcutils.wraps(f, injected=inj)(wrapper), want),
+                  ("injected=tuple", lambda f: funcutils.wraps(f, injected=(inj,))(wrapper), want),
+                  ("injected=iterator", lambda f: funcutils.wraps(f, injected=iter([inj]))(wrapper), want),
+                  ("update_wrapper(wrapper, func, injected)", lambda f: funcutils.update_wrapper(wrapper, f, injected=[inj]), want),
+                  ("update_wrapper(wrapper, func=, injected=)", lambda f: funcutils.update_wrapper(wrapper, func=f, injected=[inj]), want)]
+    elif mode == "plain":
+        trials = [("update_wrapper(wrapper, func)", lambda f: funcutils.update_wrapper(wrapper, f), want),
+                  ("update_wrapper(wrapper, func=)", lambda f: funcutils.update_wrapper(wrapper, func=f), want)]
+    else:
+        if mode == "expect_default":
+            trials = [("expected=mapping", lambda f: funcutils.wraps(f, expected={"z": 97})(wrapper), None),
+                      ("expected=tuple-of-pairs", lambda f: funcutils.wraps(f, expected=(("z", 97),))(wrapper), None)]
+        else:
+            trials = [("expected=str", lambda f: funcutils.wraps(f, expected="z")(wrapper), None),
+                      ("expected=tuple", lambda f: funcutils.wraps(f, expected=("z",))(wrapper), None)]
+    for label, make, expect in trials:
+        f = make_func(sig, False, False)
+        try:
+            w = make(f)
+            got = own(w)
+        except Exception as ex:
+            bad.append((label, "wraps-raised:" + core.exc_name(ex), str(ex)[:200]))
+            continue
+        if expect is None:
+            # the reference form of the same mode
+            ref = own(funcutils.wraps(make_func(sig, False, False), expected=[("z", 97)] if mode == "expect_default" else ["z"])(wrapper))
+            expect = ref
+        if got != expect:
+            bad.append((label, "signature", {"wrapper": got, "expected": expect}))
+        elif getattr(w, "__wrapped__", None) is not f or w.__name__ != f.__name__:
+            bad.append((label, "metadata", w.__name__))
+    if mode == "inject" and "z" not in [NAME[p[0]] for p in row["wparams"]]:
+        f = make_func(sig, False, False)
+        try:
+            w = funcutils.wraps(f, injected=[NAME[row["arg"]]], expected=["z"])(wrapper)
+            names = [n for n, k, d in own(w)]
+            if sorted(names) != sorted([p[0] for p in want] + ["z"]) or [x for x in names if x != "z"] != [p[0] for p in want]:
+                bad.append(("injected+expected", "signature", {"wrapper": names, "expected": [p[0] for p in want] + ["z (somewhere)"]}))
+        except Exception as ex:
+            bad.append(("injected+expected", "wraps-raised:" + core.exc_name(ex), str(ex)[:200]))
+    return bad
+
+
 def run_row(row):
     from boltons import funcutils
-    bad = equalish_defaults(row) + injected_lists(row) + stacked(row) + odd_names(row) + expected_collisions(row)
+    bad = equalish_defaults(row) + injected_lists(row) + stacked(row) + odd_names(row) + expected_collisions(row) + argument_forms(row)
     sig, mode = row["sig"], row["mode"]
     want_params = [[NAME[p[0]], p[1], p[2]] for p in row["wparams"]]
     seen = row["seen"]
